@@ -12,7 +12,9 @@ import sympy as sp
 
 from ..srcmodel import Unrecognised, unparse, call_name, kwarg, walk, statements, guards_of, const
 from ..symx import Translator, decide_equal
+from .C07 import find_def
 from .C07 import find_def, carrier_check
+from .. import hiddenstate
 
 LEVEL = 'other'
 EXPLANATION = 'structural/def-use analysis of find_root and quad: which function is differentiated in which argument at which point, sign tables, order agreement of gradient and data lists'
@@ -224,6 +226,10 @@ def run(ctx):
     ctx.not_decided += ['correctness of fsolve / scipy quad', 'equality with analytic inverses / antiderivatives']
     ctx.guarded('C09-D1', 'roots.py:find_root', d1_root, ctx)
     ctx.guarded('C09-D2', 'integrate.py:quad', d2_quad, ctx)
+    ctx.rule('C09-D3', 'no hidden state shared between calls (memoisation keyed by code object / name / length)')
+    for mn_ in ('roots', 'integrate'):
+        mm_ = ctx.repo.mod(mn_)
+        ctx.guarded('C09-D3', mn_ + '@hidden-state', hiddenstate.check, ctx, 'C09-D3', mm_, [q for q, _ in mm_.functions() if '.' not in q], 'the propagated derivative')
     ctx.floor('C09 obligations', len(ctx.obs), 20)
 
 
@@ -240,4 +246,8 @@ SELFTEST = [
     ('quad-param-index', 'pyerrors/integrate.py', "ifunc = np.vectorize(lambda x: jac(pval, x)[i])", "ifunc = np.vectorize(lambda x: jac(pval, x)[0])", 'C09-D2'),
     ('quad-carrier', 'pyerrors/integrate.py', "(pval[0] + np.finfo(np.float64).eps) + val, pobs", "(pval[0] + np.finfo(np.float64).eps) + val + x[0], pobs", 'C09-D2'),
     ('quad-bounds', 'pyerrors/integrate.py', "    bounds = [a, b]", "    bounds = [b, a]", 'C09-D2'),
+]
+
+SELFTEST += [
+    ('jacobian-cache-by-code', 'pyerrors/roots.py', "from .obs import derived_observable\n", "from .obs import derived_observable\n\n_jac_cache = {}\n\n\ndef _jac(func):\n    key = getattr(func, '__code__', func)\n    if key not in _jac_cache:\n        _jac_cache[key] = func\n    return _jac_cache[key]\n", 'C09-D3'),
 ]
